@@ -3,6 +3,6 @@ REAL = ['sismic.interpreter.Interpreter', 'sismic.code.PythonEvaluator', 'sismic
 STUB = ['interpreter clock (sim.probes.SimClock, advanced only by the simulator)',
         'bodies of guards / actions / entry / exit code: generated probe calls whose boolean outcome the simulator draws']
 GEN = ('well-formed chart drawn per run (DESIGN.md section 2; swarm-randomised sizes and features; in one run out of six the state names are 1-3 characters long and contain each other), then a seeded history of '
-       'queue / clock-advance / execute_once operations with a truth value drawn for every guarded transition before each step; ')
+       'queue / clock-advance / execute_once operations (one step in six through execute(max_steps=1)) with a truth value drawn for every guarded transition before each step; ')
 ASSUME = ['charts are well-formed in the sense of DESIGN.md section 2', 'generated code is probe code (no exceptions, no re-entrancy)',
           'sampling: a clean batch is evidence, not proof']
